@@ -384,7 +384,7 @@ func runC11(c *Ctx) {
 								if ex, isEx := x.(*ssa.Extract); isEx && ex.Index == 0 {
 									x = ex.Tuple
 								}
-								if lk, isL := x.(*ssa.Lookup); isL && loadOfField(lk.X, fCoal) && sameValue(lk.Index, ev.Args[1].V) {
+								if lk, isL := x.(*ssa.Lookup); isL && loadOfField(lk.X, fCoal) && (sameValue(lk.Index, ev.Args[1].V) || sameValue(frameResolve(RV{ev.Args[2].F, lk.Index}).V, ev.Args[1].V)) {
 									inc = true
 								}
 							}
